@@ -2,6 +2,7 @@ package c20
 
 import (
 	"bufio"
+	"bytes"
 	"crypto/tls"
 	"fmt"
 	"net"
@@ -214,3 +215,59 @@ type atomicURL struct {
 
 func (a *atomicURL) set(u *url.URL) { a.mu.mu.Lock(); a.u = u; a.mu.mu.Unlock() }
 func (a *atomicURL) get() *url.URL  { a.mu.mu.Lock(); defer a.mu.mu.Unlock(); return a.u }
+
+// The line describes the request the client made also when the lookup had to pass over a
+// redirect route first (a route that would have redirected the request to itself is skipped):
+// host and port as the client wrote them.
+func TestC20LogAfterSkippedRedirect(t *testing.T) {
+	hx.Check(t, hx.Scale(600, 10000), func(t *rapid.T) {
+		w := &countingWriter{}
+		format := rapid.SampledFrom([]string{"$request_host", "$request_url", "$request_host|$request_url|$request_uri", "$header.Host $request_host"}).Draw(t, "format")
+		l, err := logger.New(w, format)
+		if err != nil {
+			t.Fatalf("format %q rejected: %v", format, err)
+		}
+		clientHost := rapid.SampledFrom([]string{"example.com:80", "example.com", "EXAMPLE.com:80", "example.com:443", "example.com:8080"}).Draw(t, "client-host")
+		text := "route add redir example.com/ https://example.com$path opts \"redirect=301\"\nroute add redir8080 example.com:8080/ https://example.com$path opts \"redirect=301\"\nroute add svc / http://10.0.0.7:8080/\n"
+		tbl, err := route.NewTable(bytes.NewBufferString(text))
+		if err != nil {
+			t.Fatal(err)
+		}
+		cache := route.NewGlobCache(10)
+		p := &proxy.HTTPProxy{
+			Stats:     wire.Stats(),
+			Transport: cannedRT{200, "hello"},
+			Lookup: func(r *http.Request) *route.Target {
+				return tbl.Lookup(r, "", route.Picker["rr"], route.Matcher["prefix"], cache, false)
+			},
+			Logger: l,
+		}
+		path := rapid.SampledFrom([]string{"/", "/a/b"}).Draw(t, "path")
+		req := httptest.NewRequest("GET", path, nil)
+		req.Host = clientHost
+		req.RemoteAddr = "192.0.2.1:4711"
+		req.Header.Set("X-Forwarded-Proto", "https") // TLS was terminated in front of fabio: the redirect to https is done
+		rec := httptest.NewRecorder()
+		p.ServeHTTP(rec, req)
+		hx.Eval()
+		if rec.Code != 200 {
+			hx.Class("skipped-redirect:not-skipped")
+			return // redirected after all (another host:port form): nothing to compare here
+		}
+		line := ""
+		for _, b := range w.writes {
+			line += string(b)
+		}
+		want := format
+		want = strings.ReplaceAll(want, "$request_url", (&url.URL{Scheme: "https", Host: clientHost, Path: path}).String())
+		want = strings.ReplaceAll(want, "$request_uri", path)
+		want = strings.ReplaceAll(want, "$request_host", clientHost)
+		want = strings.ReplaceAll(want, "$header.Host", "")
+		want += "\n"
+		if line != want {
+			t.Fatalf("access log line %q, want %q (format %q; the client asked for host %q; the lookup passed over a redirect route that would have sent the request to itself)", line, want, format, clientHost)
+		}
+		hx.Class("log-line-after-a-skipped-redirect")
+		hx.NonTrivial(fmt.Sprintf("skipped|%s|%s|%s", format, clientHost, path))
+	})
+}
